@@ -4,6 +4,7 @@ import Driver.C14
 import Driver.C12
 import Driver.C10
 import Driver.C03
+import Driver.C11
 open Lean CKT CKT.Driver
 
 def dispatch (j : Json) : Except String Json := do
@@ -14,6 +15,7 @@ def dispatch (j : Json) : Except String Json := do
   else if op.startsWith "c12." then c12 op j
   else if op.startsWith "c10." then c10 op j
   else if op.startsWith "c03." then c03 op j
+  else if op.startsWith "c11." then c11 op j
   else throw s!"unknown op {op}"
 
 def handle (line : String) : String :=
